@@ -38,6 +38,11 @@ M = {
  'c02d-404-on-method-error': ('ombott/router/radirouter.py', '''            allowed = ",".join(sorted(route.methods))
         return None, [405, "Method not allowed.", allowed]''', '''            allowed = ",".join(sorted(route.methods))
         return None, [404, "Not Found", dict(hooks=[], param_values=[])]'''),
+ 'c02h-allow-cached-until-registration': ('ombott/router/radirouter.py', '''            allowed = ",".join(sorted(route.methods))''', '''            allowed = _ALLOW.get(id(route))
+            if allowed is None or len(route._methods) > _ALLOW.get(('n', id(route)), 0):
+                allowed = ",".join(sorted(route.methods))
+                _ALLOW[id(route)] = allowed
+            _ALLOW[('n', id(route))] = len(route._methods)'''),
  'c02e-any-before-get': ('ombott/ombott.py', '''            methods = [verb, 'GET', 'ANY']''', '''            methods = [verb, 'ANY', 'GET']'''),
  'c02f-overwrite-ignored': ('ombott/router/radirouter.py', '''        if overwrite:
             route.set_method(methods, handler, meta, params)''', '''        if False:
@@ -47,13 +52,17 @@ M = {
 def sh(cmd, **kw):
     return subprocess.run(cmd, shell=True, capture_output=True, text=True, **kw)
 names = sys.argv[1:] or list(M)
+PRE = {'c02h-allow-cached-until-registration': ('ombott/router/radirouter.py', 'class RouteMethod:', '_ALLOW = {}\n\n\nclass RouteMethod:')}
 for name in names:
     f, old, new = M[name]
     sh(f'git -C {R} reset -q --hard HEAD')
     p=os.path.join(R,f); s=open(p).read()
     if old not in s:
         print(name, 'PATTERN NOT FOUND'); continue
-    open(p,'w').write(s.replace(old,new,1))
+    s = s.replace(old,new,1)
+    if name in PRE:
+        s = s.replace(PRE[name][1], PRE[name][2], 1)
+    open(p,'w').write(s)
     t=sh(f'cd {R} && /venv/bin/python -m pytest -q -p no:cacheprovider 2>&1 | tail -1').stdout.strip()
     res=[]
     for pid in ('C01','C02'):
